@@ -645,6 +645,7 @@ def compare(ctx: core.Ctx, cases: list[dict], drv: core.Driver):
     tied_small = [i for i, c in enumerate(cases) if has_ties(c) and len(c["ids"]) <= 7]
     allres = dict(zip(tied_small, drv.pbatch([model_request(cases[i], "sbl_all")[0] for i in tied_small])))
     problems = []
+    sql_items = []  # tie-free cases for the translation validation of the regenerated SQL (c12_sql)
     for idx, (c, order, r, m) in enumerate(zip(cases, orders, res, mres)):
         n = len(c["ids"])
         ties = has_ties(c)
@@ -708,6 +709,8 @@ def compare(ctx: core.Ctx, cases: list[dict], drv: core.Driver):
             continue
         # model output is in rank space
         mrows = sorted((order[a], order[rep]) for a, rep in enumerate(m["rep"]))
+        if not ties and not verdicts:
+            sql_items.append((c, order, r, None if c["thr_kind"] == "none" else threshold_prob(c)))
         if not ties:
             if mrows != r["rows"]:
                 problems.append((c, f"tie-free input: cluster table differs from Lean model OneToOne.cluster: impl {r['rows']} model {mrows}", False, r, None))
@@ -732,6 +735,9 @@ def compare(ctx: core.Ctx, cases: list[dict], drv: core.Driver):
             ctx.count("correspondence", "tied: table is one of the model's outputs over all oracle pairs")
         else:
             ctx.count("correspondence", "tied, > 7 records: invariants only")
+    from harness.props import c12_sql
+
+    problems += c12_sql.validate(ctx, sql_items, drv)
     # the same (tie-free) data in every input form: one cluster table
     sweeps: dict[int, list[int]] = {}
     for idx, c in enumerate(cases):
@@ -830,7 +836,13 @@ def run(ctx: core.Ctx):
         "the engines read the inlined threshold literal as the caller's double: DuckDB converts DECIMAL literals of 17-18 digits inexactly (~6% one "
         "ulp off), SQLite 3.40 a few (core.sqlite_literal_exact); the fine-grained family draws its on-an-edge thresholds among exactly-read values",
     ]
+    from harness.props import c12_sql
+
+    sql_errs = c12_sql.prepare()  # Generated/OtoSql.lean: the SQL one_to_one_clustering emits now, as Rel terms (T-sql); Properties/C12Sql.lean is re-checked against it
     ctx.lean = core.lean_check(PROP, ctx.thorough)
+    if sql_errs:
+        ctx.lean.ok = False
+        ctx.lean.problems += ["T-sql: " + e for e in sql_errs]
     drv = core.Driver()
     if ctx.replay:
         body = json.loads(open(ctx.replay).read())
